@@ -500,7 +500,22 @@ func cloneAliasesNotWrittenThrough(c *core.Ctx) {
 	clone := p.SSAFunc(cloneM)
 	st := vmT.Underlying().(*types.Struct)
 	aliased := map[int]token.Pos{}
+	// Clone, and the methods of the VM that it calls to do part of the copying
+	cloneBodies := []*ssa.Function{clone}
 	for _, b := range clone.Blocks {
+		for _, in := range b.Instrs {
+			if ci, ok := in.(ssa.CallInstruction); ok {
+				if cal := ci.Common().StaticCallee(); cal != nil && cal.Blocks != nil && cal.Signature.Recv() != nil && core.NamedOf(cal.Signature.Recv().Type()) == vmT {
+					cloneBodies = append(cloneBodies, cal)
+				}
+			}
+		}
+	}
+	var cloneBlocks []*ssa.BasicBlock
+	for _, f := range cloneBodies {
+		cloneBlocks = append(cloneBlocks, f.Blocks...)
+	}
+	for _, b := range cloneBlocks {
 		for _, in := range b.Instrs {
 			s, ok := in.(*ssa.Store)
 			if !ok {
